@@ -127,3 +127,355 @@ pub proof fn lemma_seq_from_pointwise(s: Seq<Unifiable>, m: VM)
         lemma_seq_from_pointwise(s.drop_first(), m);
     }
 }
+
+// --- lists (the list branch of recreate_variables) ---------------------------
+
+// the terms of all nodes of a list, in order, including the Nil of the final empty node
+pub open spec fn node_terms(l: Unifiable) -> Seq<Unifiable>
+    decreases l,
+{
+    match l {
+        Unifiable::SLinkedList{term, next, count, tail_var} => seq![*term] + node_terms(*next),
+        _ => Seq::empty(),
+    }
+}
+
+pub open spec fn tail_seq(l: Unifiable) -> Seq<Unifiable> {
+    match tail_of(l) { Some(t) => seq![t], None => Seq::empty() }
+}
+
+// for a well-formed list: the elements, then the tail variable if any, then Nil
+pub proof fn lemma_node_terms(l: Unifiable)
+    requires wf_list(l),
+    ensures node_terms(l) == elems(l) + tail_seq(l) + seq![Unifiable::Nil],
+            no_nil(elems(l)), tail_of(l) matches Some(t) ==> is_tail_term(t),
+    decreases l,
+{
+    match l {
+        Unifiable::SLinkedList{term, next, count, tail_var} => {
+            if *term == Unifiable::Nil {
+                assert(node_terms(*next) == Seq::<Unifiable>::empty());
+                assert(node_terms(l) =~= seq![Unifiable::Nil]);
+                assert(elems(l) + tail_seq(l) + seq![Unifiable::Nil] =~= seq![Unifiable::Nil]);
+            } else if tail_var {
+                lemma_node_terms(*next);
+                assert(is_empty_node(*next));
+                assert(node_terms(l) =~= seq![*term] + seq![Unifiable::Nil]);
+                assert(elems(l) + tail_seq(l) + seq![Unifiable::Nil] =~= seq![*term] + seq![Unifiable::Nil]);
+            } else {
+                lemma_node_terms(*next);
+                assert(elems(l) + tail_seq(l) + seq![Unifiable::Nil]
+                       =~= seq![*term] + (elems(*next) + tail_seq(*next) + seq![Unifiable::Nil]));
+            }
+        },
+        _ => {},
+    }
+}
+
+pub open spec fn good(t: Unifiable, m: VM) -> bool { vars_in(t, m) && nz(t) && wf(t) }
+
+// two well-formed lists with pairwise same-shaped elements and tails have the same shape
+pub proof fn lemma_same_shape_lists(a: Unifiable, b: Unifiable)
+    requires
+        wf_list(a), wf_list(b),
+        elems(a).len() == elems(b).len(),
+        forall|j: int| 0 <= j < elems(a).len() ==> same_shape(#[trigger] elems(a)[j], elems(b)[j]),
+        tail_of(a) is Some <==> tail_of(b) is Some,
+        tail_of(a) is Some ==> same_shape(tail_of(a).unwrap(), tail_of(b).unwrap()),
+    ensures same_shape(a, b),
+    decreases a,
+{
+    lemma_node_count_elems(a);
+    lemma_node_count_elems(b);
+    reveal_with_fuel(same_shape, 2);
+    match (a, b) {
+        (Unifiable::SLinkedList{term: t1, next: n1, count: c1, tail_var: tv1},
+         Unifiable::SLinkedList{term: t2, next: n2, count: c2, tail_var: tv2}) => {
+            if *t1 == Unifiable::Nil {
+                // a is the empty list: no elements, no tail; so is b
+                assert(elems(b).len() == 0 && tail_of(b) is None);
+                assert(*t2 == Unifiable::Nil) by {
+                    if *t2 != Unifiable::Nil { if tv2 { } else { assert(elems(b).len() >= 1); } }
+                }
+                assert(*n1 == Unifiable::Nil && *n2 == Unifiable::Nil);
+            } else if tv1 {
+                assert(elems(a).len() == 0);
+                assert(*t2 != Unifiable::Nil) by { if *t2 == Unifiable::Nil { assert(tail_of(b) is None); } }
+                assert(tv2) by { if !tv2 { assert(elems(b).len() >= 1); } }
+                assert(is_empty_node(*n1) && is_empty_node(*n2));
+                assert(same_shape(*t1, *t2));
+                assert(same_shape(*n1, *n2));
+                assert(c1 == 1 && c2 == 1);
+            } else {
+                assert(elems(a).len() >= 1);
+                assert(*t2 != Unifiable::Nil) by { if *t2 == Unifiable::Nil { assert(elems(b).len() == 0); } }
+                assert(!tv2) by { if tv2 { assert(elems(b).len() == 0); } }
+                assert(elems(a)[0] == *t1 && elems(b)[0] == *t2);
+                assert(elems(*n1) =~= elems(a).drop_first());
+                assert(elems(*n2) =~= elems(b).drop_first());
+                assert forall|j: int| 0 <= j < elems(*n1).len() implies same_shape(#[trigger] elems(*n1)[j], elems(*n2)[j]) by {
+                    assert(elems(*n1)[j] == elems(a)[j + 1]);
+                    assert(elems(*n2)[j] == elems(b)[j + 1]);
+                }
+                lemma_same_shape_lists(*n1, *n2);
+                lemma_node_count_elems(*n1);
+                lemma_node_count_elems(*n2);
+                assert(c1 == 1 + node_count(*n1));
+                assert(c2 == 1 + node_count(*n2));
+                assert(same_shape(*t1, *t2));
+                assert(same_shape(*n1, *n2));
+            }
+        },
+        _ => {},
+    }
+}
+
+// a well-formed list whose elements and tail are good is good
+pub proof fn lemma_good_list(l: Unifiable, m: VM)
+    requires
+        wf_list(l),
+        forall|j: int| 0 <= j < elems(l).len() ==> good(#[trigger] elems(l)[j], m),
+        tail_of(l) matches Some(t) ==> good(t, m),
+    ensures good(l, m),
+    decreases l,
+{
+    match l {
+        Unifiable::SLinkedList{term, next, count, tail_var} => {
+            if *term == Unifiable::Nil {
+                reveal_with_fuel(nz, 2);
+                reveal_with_fuel(wf, 2);
+                reveal_with_fuel(vars_in, 2);
+            } else if tail_var {
+                assert(is_empty_node(*next));
+                lemma_good_list(*next, m);
+            } else {
+                assert(elems(l)[0] == *term);
+                assert(elems(*next) =~= elems(l).drop_first());
+                assert forall|j: int| 0 <= j < elems(*next).len() implies good(#[trigger] elems(*next)[j], m) by {
+                    assert(elems(*next)[j] == elems(l)[j + 1]);
+                }
+                lemma_good_list(*next, m);
+            }
+        },
+        _ => {},
+    }
+}
+
+// The renamed node terms `nt` of the well-formed list `orig` are a legal input for
+// make_linked_list, and whatever list it returns has the shape of `orig`.
+pub proof fn lemma_rename_list(orig: Unifiable, nt: Seq<Unifiable>, vbar: bool, m: VM)
+    requires
+        wf_list(orig),
+        nt.len() == node_terms(orig).len(),
+        forall|j: int| 0 <= j < nt.len() ==> same_shape(node_terms(orig)[j], #[trigger] nt[j]) && good(nt[j], m),
+        vbar == (tail_of(orig) is Some),
+    ensures
+        mll_pre(vbar, nt),
+        forall|res: Unifiable| #[trigger] mll_post(vbar, nt, res) ==> same_shape(orig, res) && good(res, m),
+{
+    lemma_node_terms(orig);
+    let ot = node_terms(orig);
+    let e0 = elems(orig);
+    let k = e0.len() as int;
+    let n = nt.len() as int;
+    // the last renamed term is the Nil marker
+    assert(ot[n - 1] == Unifiable::Nil);
+    assert(same_shape(ot[n - 1], nt[n - 1]));
+    assert(nt[n - 1] == Unifiable::Nil);
+    let e = eff(nt);
+    assert(e =~= nt.subrange(0, n - 1));
+    assert forall|j: int| 0 <= j < e.len() implies e[j] != Unifiable::Nil by {
+        assert(same_shape(ot[j], nt[j]));
+        if j < k { assert(ot[j] == e0[j]); } else { assert(ot[j] == tail_of(orig).unwrap()); }
+    }
+    assert(!splices(nt));
+    if vbar {
+        assert(e.len() == k + 1);
+        assert(same_shape(ot[k], nt[k]));
+        assert(ot[k] == tail_of(orig).unwrap());
+    } else {
+        assert(e.len() == k);
+    }
+    assert forall|res: Unifiable| #[trigger] mll_post(vbar, nt, res) implies same_shape(orig, res) && good(res, m) by {
+        let er = elems(res);
+        assert(er.len() == k);
+        assert forall|j: int| 0 <= j < k implies same_shape(#[trigger] e0[j], er[j]) && good(er[j], m) by {
+            assert(er[j] == nt[j]);
+            assert(ot[j] == e0[j]);
+            assert(same_shape(ot[j], nt[j]));
+        }
+        if vbar {
+            assert(tail_of(res) == Some(nt[k]));
+        } else {
+            assert(tail_of(res) is None);
+        }
+        lemma_same_shape_lists(orig, res);
+        lemma_good_list(res, m);
+    }
+}
+
+// --- goals, operators, built-in predicates, rules -------------------------------
+
+pub open spec fn same_shape_opt(a: Option<Vec<Unifiable>>, b: Option<Vec<Unifiable>>) -> bool {
+    match (a, b) {
+        (Some(x), Some(y)) => same_shape_seq(x@, y@),
+        (None, None) => true,
+        _ => false,
+    }
+}
+
+pub open spec fn good_seq(s: Seq<Unifiable>, m: VM) -> bool { vars_in_seq(s, m) && nz_seq(s) && wf_seq(s) }
+
+pub open spec fn same_shape_bip(a: BuiltInPredicate, b: BuiltInPredicate) -> bool {
+    a.functor@ == b.functor@ && same_shape_opt(a.terms, b.terms)
+}
+
+pub open spec fn good_bip(a: BuiltInPredicate, m: VM) -> bool {
+    a.terms matches Some(t) ==> good_seq(t@, m)
+}
+
+pub open spec fn wf_bip(a: BuiltInPredicate) -> bool {
+    a.terms matches Some(t) ==> wf_seq(t@)
+}
+
+pub open spec fn same_shape_goal(a: Goal, b: Goal) -> bool
+    decreases a,
+{
+    match (a, b) {
+        (Goal::OperatorGoal(x), Goal::OperatorGoal(y)) => same_shape_op(x, y),
+        (Goal::BuiltInGoal(x), Goal::BuiltInGoal(y)) => same_shape_bip(x, y),
+        (Goal::ComplexGoal(x), Goal::ComplexGoal(y)) => same_shape(x, y),
+        (Goal::Nil, Goal::Nil) => true,
+        _ => false,
+    }
+}
+
+pub open spec fn same_shape_op(a: Operator, b: Operator) -> bool
+    decreases a,
+{
+    match (a, b) {
+        (Operator::And(x), Operator::And(y)) => same_shape_goals(x@, y@),
+        (Operator::Or(x), Operator::Or(y)) => same_shape_goals(x@, y@),
+        (Operator::Time(x), Operator::Time(y)) => same_shape_goals(x@, y@),
+        (Operator::Not(x), Operator::Not(y)) => same_shape_goals(x@, y@),
+        _ => false,
+    }
+}
+
+pub open spec fn same_shape_goals(a: Seq<Goal>, b: Seq<Goal>) -> bool
+    decreases a,
+{
+    a.len() == b.len() && (a.len() == 0 || (same_shape_goal(a[0], b[0]) && same_shape_goals(a.drop_first(), b.drop_first())))
+}
+
+pub open spec fn op_goals(a: Operator) -> Seq<Goal> {
+    match a { Operator::And(x) => x@, Operator::Or(x) => x@, Operator::Time(x) => x@, Operator::Not(x) => x@ }
+}
+
+// a goal that renaming accepts: complex goals hold complex terms; no Goal::Nil inside operators
+pub open spec fn wf_goal(a: Goal) -> bool
+    decreases a,
+{
+    match a {
+        Goal::OperatorGoal(x) => wf_goals(op_goals(x)),
+        Goal::BuiltInGoal(x) => wf_bip(x),
+        Goal::ComplexGoal(x) => x is SComplex && wf(x),
+        Goal::Nil => false,
+    }
+}
+
+pub open spec fn wf_goals(s: Seq<Goal>) -> bool
+    decreases s,
+{
+    s.len() == 0 || (wf_goal(s[0]) && wf_goals(s.drop_first()))
+}
+
+pub open spec fn good_goal(a: Goal, m: VM) -> bool
+    decreases a,
+{
+    match a {
+        Goal::OperatorGoal(x) => good_goals(op_goals(x), m),
+        Goal::BuiltInGoal(x) => good_bip(x, m),
+        Goal::ComplexGoal(x) => good(x, m),
+        Goal::Nil => true,
+    }
+}
+
+pub open spec fn good_goals(s: Seq<Goal>, m: VM) -> bool
+    decreases s,
+{
+    s.len() == 0 || (good_goal(s[0], m) && good_goals(s.drop_first(), m))
+}
+
+pub proof fn lemma_good_mono(t: Unifiable, m0: VM, m1: VM)
+    requires good(t, m0), map_grows(m0, m1),
+    ensures good(t, m1),
+{
+    lemma_vars_in_mono(t, m0, m1);
+}
+
+pub proof fn lemma_good_seq_mono(s: Seq<Unifiable>, m0: VM, m1: VM)
+    requires good_seq(s, m0), map_grows(m0, m1),
+    ensures good_seq(s, m1),
+{
+    lemma_vars_in_seq_mono(s, m0, m1);
+}
+
+pub proof fn lemma_good_goal_mono(a: Goal, m0: VM, m1: VM)
+    requires good_goal(a, m0), map_grows(m0, m1),
+    ensures good_goal(a, m1),
+    decreases a,
+{
+    match a {
+        Goal::OperatorGoal(x) => { lemma_good_goals_mono(op_goals(x), m0, m1); },
+        Goal::BuiltInGoal(x) => { if x.terms is Some { lemma_good_seq_mono(x.terms.unwrap()@, m0, m1); } },
+        Goal::ComplexGoal(x) => { lemma_good_mono(x, m0, m1); },
+        Goal::Nil => {},
+    }
+}
+
+pub proof fn lemma_good_goals_mono(s: Seq<Goal>, m0: VM, m1: VM)
+    requires good_goals(s, m0), map_grows(m0, m1),
+    ensures good_goals(s, m1),
+    decreases s,
+{
+    if s.len() > 0 {
+        lemma_good_goal_mono(s[0], m0, m1);
+        lemma_good_goals_mono(s.drop_first(), m0, m1);
+    }
+}
+
+pub proof fn lemma_wf_goals_index(s: Seq<Goal>, i: int)
+    requires wf_goals(s), 0 <= i < s.len(),
+    ensures wf_goal(s[i]),
+    decreases s.len(),
+{
+    if i > 0 { lemma_wf_goals_index(s.drop_first(), i - 1); }
+}
+
+pub proof fn lemma_goals_from_pointwise(a: Seq<Goal>, b: Seq<Goal>, m: VM)
+    requires a.len() == b.len(),
+             forall|i: int| 0 <= i < a.len() ==> same_shape_goal(a[i], #[trigger] b[i]) && good_goal(b[i], m),
+    ensures same_shape_goals(a, b), good_goals(b, m),
+    decreases a.len(),
+{
+    if a.len() > 0 {
+        assert forall|i: int| 0 <= i < a.drop_first().len() implies
+            same_shape_goal(a.drop_first()[i], #[trigger] b.drop_first()[i]) && good_goal(b.drop_first()[i], m) by {
+            assert(a.drop_first()[i] == a[i + 1]);
+            assert(b.drop_first()[i] == b[i + 1]);
+        }
+        lemma_goals_from_pointwise(a.drop_first(), b.drop_first(), m);
+    }
+}
+
+// rules
+pub open spec fn wf_rule(r: Rule) -> bool {
+    r.head is SComplex && wf(r.head) && (r.body is Nil || wf_goal(r.body))
+}
+pub open spec fn same_shape_rule(a: Rule, b: Rule) -> bool {
+    same_shape(a.head, b.head) && same_shape_goal(a.body, b.body)
+}
+pub open spec fn good_rule(a: Rule, m: VM) -> bool {
+    good(a.head, m) && good_goal(a.body, m)
+}
